@@ -20,6 +20,27 @@ var storeReturnsHolding = map[string]string{
 func c14(c *Ctx) {
 	c14CutOffset(c, "C14.5/cut-offset-is-the-first-value-of-the-tx")
 	c14CatalogCopyComplete(c, "C14.6/catalog-copy-covers-every-persisted-kind")
+	// the transaction committed by the catalog copy is the only one carrying the "truncated up to" attribute: a header
+	// converted without it hashes to another Alh, no proof through that transaction verifies (shared with C15.12)
+	c15ValueUsedOnSuccessOnly(c, "C14.7/truncation-attribute-is-converted", func(f *ssa.Function) bool {
+		return fnInPkgs(f, []string{"pkg/api/schema"}) && strings.HasSuffix(c.Fset.Position(f.Pos()).Filename, "database_protoconv.go")
+	}, 0)
+	if f := c.mustFn("C14.7/truncation-attribute-is-converted", "pkg/api/schema.TxMetadataToProto"); f != nil {
+		ok := false
+		for _, st := range sites(f, storeTo("TxMetadata.TruncatedTxID")) {
+			if dependsOn(st.(*ssa.Store).Val, func(v ssa.Value) bool {
+				ex, isEx := v.(*ssa.Extract)
+				if !isEx {
+					return false
+				}
+				cl, isCall := ex.Tuple.(*ssa.Call)
+				return isCall && strings.HasSuffix(calleeName(&cl.Call), "(*TxMetadata).GetTruncatedTxID")
+			}) {
+				ok = true
+			}
+		}
+		c.check(ok, "C14.7/truncation-attribute-is-converted", fnName(f)+":TruncatedTxID<-GetTruncatedTxID", c.pos(f.Pos()), "the message's TruncatedTxID is what GetTruncatedTxID answers", "TxMetadataToProto no longer stores the value of GetTruncatedTxID into the message")
+	}
 	// ---- C14.1 lock pairing in the store (ExportTx in particular) -------------------------------------
 	c.rulePairing("C14.1/lock-pairing", []string{"embedded/store"}, storeReturnsHolding)
 	// every fetchVLog is paired with a releaseVLog on all paths
@@ -485,13 +506,25 @@ func c14CatalogCopyComplete(c *Ctx, r string) {
 			continue
 		}
 		n++
+		// the kind's prefix is what a key scanned by the copy is built from (mentioning the constant elsewhere - in a
+		// message, say - copies nothing)
 		copied := false
 		for f := range reach {
-			if refsConst(f, val) {
-				copied = true
+			if !refsConst(f, val) {
+				continue
+			}
+			for _, in := range sites(f, callTo("embedded/sql.MapKey")) {
+				for _, a := range callOf(in).Args {
+					if dependsOn(a, func(v ssa.Value) bool {
+						k, ok := v.(*ssa.Const)
+						return ok && k.Value != nil && k.Value.Kind() == constant.String && constant.StringVal(k.Value) == val
+					}) {
+						copied = true
+					}
+				}
 			}
 		}
-		c.check(copied, r, name, c.pos(root.Pos()), "re-committed by the catalog copy", "keys under "+val+" are persisted (by "+persisted+") but nothing reachable from CopyCatalogToTx reads them: after a truncation that removes their values and a restart these catalog objects no longer exist")
+		c.check(copied, r, name, c.pos(root.Pos()), "re-committed by the catalog copy", "keys under "+val+" are persisted (by "+persisted+") but nothing reachable from CopyCatalogToTx builds a key from that prefix: after a truncation that removes their values and a restart these catalog objects no longer exist")
 	}
 	if n < 4 {
 		c.undecided(r, "floor", fmt.Sprintf("%d persisted catalog kinds found (tables, columns, indexes, checks, views, sequences expected)", n))
